@@ -74,15 +74,28 @@ def run_case(case):
     ttoks = cs.topo_tokens(facts) if facts else ["no_pq_pv_bus"]
     qualifies = bool(facts) and facts["one_slack_per_island"] and facts["max_loops"] <= MAX_LOOPS_WEAK
     nh = core.dhash([case["base"], case["devs"]])
+    scratch = {}
     for c in case["configs"]:
-        net = copy.deepcopy(ref if c["init"] == "results" else net0)
+        # a fresh deep copy per run; a copy on which pandapower refused to start (NotImplementedError is raised while
+        # the options are checked, before the net is touched) is reused for the next configuration
+        net = scratch.pop(c["init"] == "results", None)
+        if net is None:
+            net = copy.deepcopy(ref if c["init"] == "results" else net0)
         with contextlib.redirect_stdout(io.StringIO()):   # iwamoto_nr prints its multiplier
             oc, msg = cs.run_alt(net, c)
+        if oc == "NotImplementedError":
+            scratch[c["init"] == "results"] = net
         out["n"] += 1
         count("alt_%s_%s" % (c["alg"], oc))
         toks = ["alg=" + c["alg"], "numba=%s" % c["numba"], "ls2g=%s" % c["ls2g"], "init=" + c["init"]] + ttoks
         if oc == "ok":
-            bad = cs.compare(snap, cs.snapshot(net), c["alg"])
+            alt = cs.snapshot(net)
+            bad = cs.compare(snap, alt, c["alg"])
+            if bad and c["init"] == "flat" and facts and facts["shift"] and cs.low_voltage_solution(snap, alt):
+                # flat start is > 90 degrees away from the solution behind a phase shifting transformer: Newton
+                # converges to the other (low-voltage) root of the same equations - a valid solution, not a defect
+                count("other_valid_solution_flat_start_phase_shift")
+                continue
             out["sig"].append("%s|%s" % (nh, cs.cfg_name(c)))
             for what, dev, tol, where in bad:
                 out["violations"].append(core.violation(
@@ -95,7 +108,8 @@ def run_case(case):
             ex = cs.explain_bfsw_error(facts, oc, msg) if clause == "bfsw_internal_error" else []
             out["violations"].append(core.violation(
                 clause, {"config": cs.cfg_name(c), "exception": oc, "message": msg, "facts": facts},
-                tokens=toks + ["exc=" + oc] + ex, klass="bfsw/" + oc))
+                tokens=toks + ["exc=" + oc] + ex + (["pv_inner_loop"] if "inner iterations for PV nodes" in msg else []),
+                klass="bfsw/" + oc))
     out["outcome"] = "ok"
     return out
 
